@@ -16,7 +16,7 @@ import random
 from harness import absval, core, repo
 from harness.repo import Cell
 
-KINDS = ['int', 'float', 'bool', 'one', 'text', 'datetime', 'negint', 'zero', 'array', 'date', 'boolf', 'bigint', 'eqtext']
+KINDS = ['int', 'float', 'bool', 'one', 'text', 'datetime', 'negint', 'zero', 'array', 'date', 'boolf', 'bigint', 'eqtext', 'calltext']
 
 
 def planted(kind, c, r):
@@ -45,6 +45,8 @@ def planted(kind, c, r):
         return 2 ** 40 + (c % 97)
     if kind == 'eqtext':       # a TEXT cell whose text starts with '=' (typed with a leading apostrophe in Excel): stored type is text
         return f'={c % 97}+{r}'
+    if kind == 'calltext':     # a text that reads like a call (what the safety check reports): a cell like any other once the check is switched off
+        return f'rate(net {c}_{r})'
     if kind == 'array':
         from openpyxl.worksheet.formula import ArrayFormula
         return ArrayFormula(f'{repo.col_letters(c)}{r}', f'=SUM({c % 97},{r})')
@@ -116,7 +118,7 @@ def _job(args):
         out = []
         # every second chunk: ONE Parser for all its workbooks, each written to the SAME path in turn (a regenerated file) and announced again
         # with set_excel_file_path; the other chunks: a new Parser and a new path per workbook
-        shared = repo.Parser() if idx % 2 else None
+        shared = repo.Parser().disable_safety_check() if idx % 2 else None
         for k, rec in enumerate(recs):
             x = os.path.join(scratch, f'c18_{idx}_{0 if shared else k}.xlsx')
             p = os.path.join(scratch, f'c18_{idx}_{k}.py')
@@ -140,7 +142,7 @@ def _job(args):
                 stale_dimension(x, rec['sheets'])
             ev = {'sheets': rec['sheets'], 'titles': [], 'sizes': [], 'cells': [], 'err': ''}
             try:
-                (shared or repo.Parser()).set_excel_file_path(x).write_translation(p)
+                (shared or repo.Parser().disable_safety_check()).set_excel_file_path(x).write_translation(p)
                 ex = repo.Executor().set_executed_class(class_file=p)
                 inst = ex.get_executed_class()
                 titles = inst.get_titles()
